@@ -259,37 +259,37 @@ func runC18(c *Ctx) {
 		c.Check(len(carried) == 0, "C18-URL", "(*valid.VUrl).validate", "own-text", urlPos, "key and value are cut from the parameter's own text", uniqJoin(carried, 2))
 		c.Check(len(decBad) == 0, "C18-URL", "(*valid.VUrl).validate", "query-decoding", urlPos, "values are query-decoded (url.QueryUnescape)", uniqJoin(decBad, 1))
 		c.Check(len(lossy) == 0, "C18-URL", "(*valid.VUrl).validate", "first-equals", urlPos, "value keeps everything after the first '='", uniqJoin(lossy, 1))
-	// the query starts at the FIRST '?': a value may contain '?' itself (a nested URL, "what?")
-	if ufn := p.Method("valid", "VUrl", "validate"); ufn != nil {
-		var qbad []string
-		firsts := 0
-		for _, b := range ufn.Blocks {
-			for _, ins := range b.Instrs {
-				call, ok := ins.(*ssa.Call)
-				if !ok || len(call.Call.Args) < 2 {
-					continue
-				}
-				nm := calleeName(&call.Call)
-				isQ := false
-				if s, ok := constString(call.Call.Args[1]); ok && s == "?" {
-					isQ = true
-				}
-				if k, ok := constInt(call.Call.Args[1]); ok && k == '?' {
-					isQ = true
-				}
-				if !isQ || !strings.HasPrefix(nm, "strings.") {
-					continue
-				}
-				if strings.HasPrefix(nm, "strings.LastIndex") {
-					qbad = append(qbad, p.Pos(call.Pos())+": the query is cut at the LAST '?' ("+nm+"): a parameter value that contains '?' moves the start of the query into the value, the parameters before it are reported missing or never judged")
-				} else {
-					firsts++
+		// the query starts at the FIRST '?': a value may contain '?' itself (a nested URL, "what?")
+		if ufn := p.Method("valid", "VUrl", "validate"); ufn != nil {
+			var qbad []string
+			firsts := 0
+			for _, b := range ufn.Blocks {
+				for _, ins := range b.Instrs {
+					call, ok := ins.(*ssa.Call)
+					if !ok || len(call.Call.Args) < 2 {
+						continue
+					}
+					nm := calleeName(&call.Call)
+					isQ := false
+					if s, ok := constString(call.Call.Args[1]); ok && s == "?" {
+						isQ = true
+					}
+					if k, ok := constInt(call.Call.Args[1]); ok && k == '?' {
+						isQ = true
+					}
+					if !isQ || !strings.HasPrefix(nm, "strings.") {
+						continue
+					}
+					if strings.HasPrefix(nm, "strings.LastIndex") {
+						qbad = append(qbad, p.Pos(call.Pos())+": the query is cut at the LAST '?' ("+nm+"): a parameter value that contains '?' moves the start of the query into the value, the parameters before it are reported missing or never judged")
+					} else {
+						firsts++
+					}
 				}
 			}
+			c.Sites++
+			c.Check(len(qbad) == 0 && firsts > 0, "C18-URL", "(*valid.VUrl).validate", "first-question-mark", urlPos, "query cut at the first '?'", uniqJoin(append(qbad, map[bool]string{true: "", false: "no search for '?' found"}[firsts > 0]), 2))
 		}
-		c.Sites++
-		c.Check(len(qbad) == 0 && firsts > 0, "C18-URL", "(*valid.VUrl).validate", "first-question-mark", urlPos, "query cut at the first '?'", uniqJoin(append(qbad, map[bool]string{true: "", false: "no search for '?' found"}[firsts > 0]), 2))
-	}
 		c.Check(len(decodeFirst) == 0, "C18-URL", "(*valid.VUrl).validate", "decode-after-split", urlPos, "decoding does not precede splitting", uniqJoin(decodeFirst, 1))
 	}
 	// --- C18-IFACE (same construct as C03-IFACE, judged for this property)
